@@ -734,6 +734,16 @@ func (g *gen) hashLit(depth int, dup bool) string {
 		if dup {
 			v = g.maybeProbe(v, kAny, "hash-value", true)
 		}
+		if g.o.probes && g.pct("computedkey", 6) {
+			// DORMANT probe: a computed hash key. plush does not evaluate key expressions today (the entry lands
+			// under the key expression's first token), so this probe is never invoked and nothing is asserted; a
+			// change that starts evaluating keys makes it a fault point like any other (fault points are the
+			// invocations that actually happen)
+			g.feat("dormant_probe_hash_key")
+			ks := g.newSite(pkValue, "hash-key", kStr)
+			parts = append(parts, fmt.Sprintf("pv(%d, %q): %s", ks.ID, k, v))
+			continue
+		}
 		parts = append(parts, fmt.Sprintf("%q: %s", k, v))
 	}
 	if n > 1 {
@@ -849,6 +859,23 @@ func (g *gen) piece(depth int) {
 	if g.o.failNested && g.p.Failing == "" && (g.nest > 0 || g.cur.name != "") && g.pct("failnested", 25) {
 		g.failingPiece()
 		return
+	}
+	if g.o.probes && g.pct("parenless", 3) {
+		// DORMANT probe: a zero-argument method referenced WITHOUT parentheses in an output tag. plush does not
+		// call it today (the reference renders as nothing); a change that starts calling such methods makes it
+		// a fault point like any other (fault points are the invocations that actually happen)
+		for i, id := range []int{9101, 9102, 9103, 9104} {
+			if g.p.Sites[id] == nil {
+				g.feat("dormant_probe_parenless_method")
+				g.frames = 0
+				st := &Site{ID: id, Kind: pkMethod, Tmpl: g.cur.name, Class: "output:method-reference-without-call", ElseIf: g.elseIf, Frames: g.frames, Want: kStr, Late: g.late, Ctx: g.curCtx()}
+				g.p.Sites[id] = st
+				g.pending = append(g.pending, st)
+				g.siteLog = append(g.siteLog, st)
+				g.tag("<%=", fmt.Sprintf("vobj.Tok%d", i+1), "%>")
+				return
+			}
+		}
 	}
 	if g.o.ctxProbes && g.pct("ctxprobe", 25) {
 		g.frames = 0
